@@ -56,6 +56,8 @@ def run(ck, prog):
     ck.rule("R20.3", "every operator literal the lexer accepts is offered")
     ck.rule("R20.4", "every file-level keyword offered dispatches to a statement parser, not to the error arm")
     ck.rule("R20.5", "class completion iterates all classes unfiltered; one item per class; one placeholder per template arg")
+    ck.rule("R20.6", "with trigger character `!` the bang operators are offered on every path")
+    ck.rule("R20.7", "error recovery at statement level never swallows a token that starts a statement")
 
     lx = lexer_tables(ck, prog)
     kw = lx["keywords"]          # literal -> kind
@@ -122,4 +124,74 @@ def run(ck, prog):
             ok = False
     ck.ob("R20.5", "push-per-class", ok, "every loop iteration reaches Vec::push before the next class",
           msg="some iteration of the class loop skips the push (a class would not be offered)")
+    # R20.7 ------------------------------------------------------------------
+    # the statement dispatcher's error arm never consumes a token that starts a statement: evaluated by abstract
+    # interpretation of whatever that arm calls, entered with the tokens that reach the arm
+    import sys
+    from .. import parser_ai
+    by_tgt = {}
+    for k, tgt in dispatch.items():
+        by_tgt.setdefault(tgt, set()).add(k)
+    default_tgt = max(by_tgt, key=lambda z: len(by_tgt[z]))        # the `_` arm: the target of most token kinds
+    stmt_kw = {k for k, tgt in dispatch.items() if tgt != default_tgt}
+    default_fns = {default_tgt: {k for k in by_tgt[default_tgt] if k != "Eof"}}
+    ck.anchor(len(stmt_kw) >= 8, "statement() dispatch has lost its keyword arms")
+    sb = prog.body("syntax::grammar::statement::statement")
+    for tgt, entry in sorted(default_fns.items(), key=lambda z: str(z[0])):
+        # resolve the arm's real callee (the table says ERROR for ParserBase::error*)
+        callees = set()
+        for i, t in sb.calls():
+            c = Body.callee(t) or ""
+            if (tgt == "ERROR" and "::error" in c) or c == tgt:
+                callees.add(c)
+        ck.anchor(bool(callees), "error arm of statement() calls nothing recognisable")
+        for c in sorted(callees):
+            sys.setrecursionlimit(10000)
+            ai = parser_ai.ParserAI(prog)
+            ai.token_log = []
+            ai.run(c, la=frozenset(entry) - ai.trivia)
+            eaten = set()
+            for (fn, kinds) in ai.token_log:
+                eaten |= set(kinds)
+            swallowed = sorted(eaten & stmt_kw)
+            ck.ob("R20.7", "error-arm:%s" % c, not swallowed and bool(ai.token_log),
+                  "error arm %s consumes only tokens that start no statement (%d consumption sites evaluated)" % (c, len(ai.token_log)),
+                  msg="the error arm of statement() (%s) can consume the statement keywords %s: a statement that follows a stray "
+                      "token is swallowed into the error node instead of being parsed" % (c, swallowed))
+
+    # R20.6 ------------------------------------------------------------------
+    # whenever the request's trigger character is `!`, the bang operators are offered: from the true edge of the
+    # comparison of the trigger argument, no path reaches the return without calling complete_bang_operators
+    from .. import prov
+    xb = prog.body("ide::handlers::completion::exec")
+    ck.anchor(xb is not None, "completion::exec not found")
+    cmp_sites = []
+    for i, t in xb.calls():
+        c = Body.callee(t) or ""
+        if c.endswith("PartialEq>::eq") or c.endswith("PartialEq>::ne"):
+            o = set()
+            for a in t["args"]:
+                o |= set(prov.origins(xb, a))
+            if any(x[0] == "arg" and x[1] == 3 for x in o):
+                cmp_sites.append((i, t, c.endswith("::ne")))
+    ck.anchor(len(cmp_sites) >= 1, "completion::exec no longer compares its trigger-character argument")
+    bang_blocks = cfg.blocks_calling(xb, lambda c: c == COMPLETION + "complete_bang_operators")
+    ck.anchor(bool(bang_blocks), "completion::exec no longer calls complete_bang_operators")
+    for i, t, negated in cmp_sites:
+        sw = t["t"]
+        st = xb.term(sw)
+        ok = False
+        why = "the comparison result is not branched on directly"
+        if st["k"] == "switch":
+            false_tgt = [tgt for val, tgt in st["arms"] if val == 0]
+            true_tgt = st["else"] if false_tgt else None
+            if negated:
+                true_tgt = false_tgt[0] if false_tgt else None
+            if true_tgt is not None:
+                esc = cfg.path_exists(xb, true_tgt, lambda x: xb.term(x)["k"] == "return", avoid=bang_blocks, include_src=True)
+                ok = esc is None
+                why = "every path from the `== \"!\"` edge to the return calls complete_bang_operators" if ok else \
+                    "a path from the `== \"!\"` edge reaches the return without complete_bang_operators (blocks %s)" % (esc,)
+        ck.ob("R20.6", "bang-after-trigger:%d" % cmp_sites.index((i, t, negated)), ok, why,
+              msg="completion::exec: with trigger character `!` the bang operators are not always offered: %s" % why)
     ck.count(total + len(kw) + len(ops) + len(dispatch))
